@@ -7,3 +7,57 @@ claim("C03",
       "'Completes without raising' is proved for the driver given a non-raising in-space backend; per-optimizer totality is examined by the monitor (hazard configurations) - see DESIGN 5/C03.",
       "Lean 4 proof (induction over steps and calls, parametric in the backend) + differential correspondence of the model with search.py",
       "DESIGN.md section 5, C03")
+claim("C04",
+      "GFO.C04.rows_are_evaluations: for every backend and every deterministic objective the rows a search() call appends are, in evaluation order, "
+      "rowOf(objective(parameters), parameters) of the emitted positions - memory off, or memory on with any dictionary satisfying the cache invariant; "
+      "row_score / row_param / row_has_metric_keys state what a row contains (parameter wins over a metric of the same name). "
+      "Tied to _results_manager.py/_memory.py/search.py by driver-level correspondence (objectives returning scores and (score, dict) with python/numpy scalars, "
+      "key clashes, memory on/off/proxy, 1-4 calls) and monitored on every real run by recomputing the objective per row.",
+      "pandas DataFrame(list_of_dicts) is trusted (compared after canonicalisation); objectives are deterministic functions of the parameter set.",
+      "Lean 4 proof (invariant along the run relation, parametric in backend and objective) + differential correspondence with the real driver", "DESIGN.md section 5, C04")
+claim("C05",
+      "GFO.C05.best_is_first_max: after every call best_score is not nan, dominates every non-nan score of the call and is attained by the FIRST such step whose position is best_pos "
+      "(best_pos is None only if every score was nan); best_para_decodes; verbosity_irrelevant is a full simulation theorem (searchCall_quiet): the progress-bar class changes nothing but tqdm bookkeeping. "
+      "Correspondence + monitors on ties/plateaus/sign/non-finite objectives under all verbosity settings, all 22 optimizers.",
+      "tqdm / print_info are not modelled (they only read).",
+      "Lean 4 proof (fold over the run's trajectory; simulation between the two progress-bar classes) + differential correspondence", "DESIGN.md section 5, C05")
+claim("C06",
+      "Single process: GFO.C06.at_most_one_call_and_memory_dict_exact, memory_returns_original (rows and scores are the same function of the emitted positions with memory on and off). "
+      "Shared manager dict: GFO.C06.shared_inv / shared_scores_correct / shared_final_union / shared_get_after_contains hold for EVERY interleaving of atomic proxy operations. "
+      "memory_transparent is proved up to equality of the emitted positions (memory_transparent_partial); that equality is examined by paired real runs (memory=True/False, same seed). "
+      "Real 2-6 process runs on a logging manager dict are replayed operation by operation on the Lean model.",
+      "Partial: trajectory equality of the memory-on and memory-off run is not a theorem (paired runs). The manager serialises proxy calls (multiprocessing contract).",
+      "Lean 4 proof (cache invariant by induction over steps / over schedules) + differential correspondence incl. recorded real schedules", "DESIGN.md section 5, C06")
+claim("C11",
+      "GFO.C11.warm_trusted_rest_evaluated: with any warm-start dictionary, a step whose key is in it is answered from it without an objective call and records the dictionary's score, "
+      "every other step records objective(parameters); warm_row_loaded / lookup_key_agrees: a dataframe row of the space is stored under the position of its values for ANY array order (Nodup). "
+      "Function-level correspondence of loader and wrapper key on all array orders; driver-level warm-start histories chained over up to 3 runs; monitor on the objective call log.",
+      "Off-grid dataframe values are outside the property (mapped to the nearest grid point by both loader and wrapper).",
+      "Lean 4 proof (invariant MemWarm along the run) + differential correspondence", "DESIGN.md section 5, C11")
+claim("C12",
+      "GFO.C12.maxScore_stop_step: with max_score = m (any rational, 0 included) as the only criterion, no step before the last reached m, a call that stopped before n_iter stopped on a step that reached m, "
+      "and best_score >= m iff some step reached m; for every backend/objective/space. Function-level grid for score_exceeded/StopRun.check incl. 0, -0.0, +-inf, nan; driver-level scripted score sequences.",
+      "Combination with other criteria is covered by correspondence, not by the theorem.",
+      "Lean 4 proof (run relation + running-best lemmas) + differential correspondence", "DESIGN.md section 5, C12")
+claim("C13",
+      "GFO.C13.noChange_spec: for every finite score list, every n >= 1 and every tolerance combination no_change never raises and returns true exactly when the documented rule Spec holds; "
+      "earlyStop_step / earlyStop_rule: the search stops at the first step at which the rule holds, never earlier or later. "
+      "Function-level correspondence is EXHAUSTIVE over all sequences of a dyadic alphabet up to length 6 (quick) / 7 (thorough) x n x tolerances x python/numpy floats, plus random long sequences; driver-level scripted sequences.",
+      "Non-dyadic scores: the comparison percent_imp < tol_rel is a float rounding question the exact-rational model does not capture.",
+      "Lean 4 proof (first-argmax lemma, induction over lists) + exhaustive differential correspondence", "DESIGN.md section 5, C13")
+claim("C14",
+      "GFO.C14.maxTime_stop_step: with max_time = T > 0 as the only criterion the call runs on while the elapsed (virtual) time is <= T and stops after the first step at which it exceeds T; eval_times are the durations. "
+      "Driver-level correspondence with duration schedules (zeros, exact hits, cache hits contributing 0) under a substituted clock.",
+      "Stated against the substituted clock: real wall-clock resolution/overhead is outside the model.",
+      "Lean 4 proof (run relation, sums of durations) + differential correspondence under a virtual clock", "DESIGN.md section 5, C14")
+claim("C18",
+      "GFO.C18.stepApi_eq_search: init_search; search_step(0..N-1); finish_search equals search(n_iter=N) without criteria for every backend/objective/state (with criteria: search is the truncated run). "
+      "GFO.C18.facades_forward: over the table REGENERATED from optimizer_search/*.py and optimizers/**.py on every run, every public class is class X(_X, Search) whose constructor only forwards each parameter under its own name with the backend's default (decide +kernel). "
+      "Paired real runs: search vs step API on all 22 classes; facade vs backend+Search with non-default constructor values one at a time and jointly.",
+      "The ast extractor (harness/translators.py, ~80 lines) is trusted; it refuses constructors it cannot read.",
+      "Lean 4 proof + translator-generated table closed by decide + paired real runs", "DESIGN.md section 5, C18")
+claim("C20",
+      "GFO.C20.pos_value_roundtrip / value_para_roundtrip / pos_para_roundtrip / batched_agree / batched_roundtrip / memdict_df_roundtrip for every space with pairwise distinct values in ANY order, every position, every list and every memory dictionary (empty included). "
+      "Function-level correspondence of all Converter methods, exhaustive over all orders of dimensions with <= 3 (quick) / 4 (thorough) values and all positions, random up to 5 dims x 50.",
+      "numpy/pandas containers are trusted after canonicalisation.",
+      "Lean 4 proof (first-occurrence lemma for the nearest-element lookup) + exhaustive differential correspondence", "DESIGN.md section 5, C20")
